@@ -1,5 +1,7 @@
 import Iec.Lemmas.Srv104
 import Iec.Lemmas.HpQueue
+import Iec.Lemmas.MsgQueueOrder
+import Iec.Props.C06
 /-
 C13 — Event ordering and response priority on a CS104 server connection.
 
@@ -22,8 +24,16 @@ and `reply_ring_fifo` - for every ring size, every reply size and every interlea
 (hence every wrap position), what was queued plus what was accepted equals what was handed out plus what is
 still queued, in order; an empty answer means empty.  Attempting this proof exposed a genuine defect (second
 wrap over queued replies, fix 6ce2fc6); the model is the repaired code and is tied to it by the direct ring
-differential (`hq.*` operations) and the model-free FIFO oracle.  FIFO order inside the EVENT ring is still
-tied by the correspondence run only (partial, see C06).
+differential (`hq.*` operations) and the model-free FIFO oracle.
+
+The EVENT ring: `events_transmitted_in_enqueue_order` - for every ring state satisfying the layout invariant, any
+list of enqueues (any sizes, any wrap position, any number of displaced entries) followed by any number of
+`getNextWaitingASDU` calls hands out, oldest first and each once, the waiting entries of (old content ++ new
+ASDUs) minus a displaced prefix (`Lemmas/MsgQueueOrder.lean`: `drain_spec`, `enqueueAll_refines`, on top of the
+ring refinement of C06); `fresh_queue_order` - from an empty ring the transmitted ASDUs are a contiguous run
+`(ds.drop k).take n` of the enqueued ones; `resume_with_oldest_unconfirmed` - after the re-arm at connection loss
+the next entry handed out is the oldest one not confirmed.  The coupling of these queue operations with the
+connection state machine (when `sendWaitingASDUs` runs) is in the server model and tied differentially.
 -/
 namespace Iec.Props.C13
 open Iec.Srv104 Iec.KWindow Iec.Queues
@@ -94,5 +104,79 @@ theorem reply_ring_refines_fifo (q : HpQueue) (up low : List HpEntry) (h : HpInv
 example : HpInv (HpQueue.create 1) [] [] := HpInv.empty 1 (by omega)
 example : (hpRun (HpQueue.create 1) [.enq [1, 2], .enq [3], .deq, .enq [4, 5, 6], .deq, .deq, .deq]).2 =
     ([[1, 2], [3], [4, 5, 6]], [[1, 2], [3], [4, 5, 6]]) := by decide
+
+/-! ### the event ring: transmission order = enqueue order -/
+
+/-- **event ASDUs are transmitted in the order they were enqueued**: for every ring state under the layout invariant,
+every list of enqueues and every number `n` of `getNextWaitingASDU` calls, the ASDUs handed out are the first `n`
+waiting entries of (old content followed by the new ASDUs) minus a displaced prefix of `k` oldest entries - in
+that order, each once, octet for octet. -/
+theorem events_transmitted_in_enqueue_order (q : MsgQueue) (up low : List MEntry) (h : MqInv q up low)
+    (ds : List (List Nat)) (hd : ∀ d ∈ ds, d.length ≤ 250) (hs : 266 ≤ q.size) :
+    ∃ k, ∀ n, (drain n (enqueueAll q ds)).2.map (fun r => r.2.2) =
+      ((((content up low ++ ds.map (fun d => (1, d))).drop k).filter (fun x : Nat × List Nat => x.1 == 1)).take n).map (fun x : Nat × List Nat => x.2) := by
+  obtain ⟨up', low', k, hinv, hc⟩ := enqueueAll_refines ds q up low h hd hs
+  refine ⟨k, fun n => ?_⟩
+  obtain ⟨d1, _⟩ := drain_spec n _ up' low' hinv
+  have := congrArg (List.map (fun x : Nat × List Nat => x.2)) d1
+  simp only [List.map_map] at this
+  have e1 : ((fun x : Nat × List Nat => x.2) ∘ fun r : Nat × Nat × List Nat => (r.1, r.2.2)) = fun r => r.2.2 := rfl
+  rw [e1] at this
+  rw [this, ← hc]
+  unfold content
+  rw [List.filter_map, ← List.map_take, List.map_map]
+  rfl
+
+/-- from an empty ring: what is transmitted is a contiguous run of what was enqueued, in order -/
+theorem fresh_queue_order (m : Nat) (hm : 1 ≤ m) (ds : List (List Nat)) (hd : ∀ d ∈ ds, d.length ≤ 250) :
+    ∃ k, ∀ n, (drain n (enqueueAll (MsgQueue.create m) ds)).2.map (fun r => r.2.2) = (ds.drop k).take n := by
+  have hs : 266 ≤ (MsgQueue.create m).size := by
+    show 266 ≤ m * (HDR + 256)
+    simp only [HDR]
+    calc 266 ≤ 1 * (16 + 256) := by decide
+      _ ≤ m * (16 + 256) := Nat.mul_le_mul_right _ hm
+  obtain ⟨k, hk⟩ := events_transmitted_in_enqueue_order (MsgQueue.create m) [] [] (Iec.Props.C06.create_inv m) ds hd hs
+  refine ⟨k, fun n => ?_⟩
+  rw [hk n]
+  simp only [content, List.append_nil, List.map_nil, List.nil_append, ← List.map_drop]
+  rw [List.filter_map]
+  have : (List.filter ((fun x : Nat × List Nat => x.1 == 1) ∘ fun d => (1, d)) (List.drop k ds)) = List.drop k ds := by
+    apply List.filter_eq_self.mpr
+    intro a _; rfl
+  rw [this, ← List.map_take, List.map_map]
+  have hid : ((fun x : Nat × List Nat => x.2) ∘ fun d : List Nat => (1, d)) = id := rfl
+  rw [hid, List.map_id]
+
+/-- **after a reconnection transmission resumes with the oldest unacknowledged event**: the re-arm at connection loss
+turns the sent-but-unconfirmed entries back into waiting ones, so the next entry handed out is the oldest entry that
+is not confirmed -/
+theorem resume_with_oldest_unconfirmed (q : MsgQueue) (up low : List MEntry) (h : MqInv q up low) :
+    match (up ++ low).find? (fun x => x.2.st == 1 || x.2.st == 2) with
+    | none => q.setWaitingWhenNotConfirmed.getNextWaiting.2 = none
+    | some x => q.setWaitingWhenNotConfirmed.getNextWaiting.2 = some (x.2.id, x.1, x.2.data) := by
+  have hinv := setWaiting_refines q up low h
+  have hg := getNextWaiting_refines _ _ _ hinv
+  rw [← List.map_append, List.find?_map] at hg
+  have hp : ((fun x : MEntry => x.2.st == 1) ∘ rearm) = (fun x : MEntry => x.2.st == 1 || x.2.st == 2) := by
+    funext x
+    simp only [Function.comp, rearm, rearmE]
+    by_cases h2 : x.2.st = 2
+    · simp [h2]
+    · simp [h2]
+  rw [hp] at hg
+  cases hf : (up ++ low).find? (fun x => x.2.st == 1 || x.2.st == 2) with
+  | none =>
+    rw [hf] at hg
+    simp only [Option.map_none] at hg
+    simp only
+    rw [hg]
+  | some x =>
+    rw [hf] at hg
+    simp only [Option.map_some] at hg
+    simp only
+    rw [hg.1]
+    show some ((rearm x).2.id, (rearm x).1, (rearm x).2.data) = _
+    simp only [rearm, rearmE]
+    split <;> rfl
 
 end Iec.Props.C13
